@@ -257,9 +257,13 @@ func CryptoDoc(kind, marker string, container string) []byte {
 				o.body = "<</Filter/FlateDecode>>"
 			}
 		}
-	case "sigdict":
+	case "sigdict", "sigdict-untyped":
 		pg := firstPageRef(d)
-		sig := d.Add(fmt.Sprintf("<</Type/Sig/Filter/Adobe.PPKLite/SubFilter/adbe.pkcs7.detached/Name(%s-signer)/Reason(%s-reason)/Location(%s-location)/M(D:20240101000000Z)/Contents<%s>/ByteRange[0 10 20 10]>>", marker, marker, marker, strings.Repeat("00", 32)))
+		typ := "/Type/Sig"
+		if kind == "sigdict-untyped" {
+			typ = "" // /Type is optional in a signature dictionary
+		}
+		sig := d.Add(fmt.Sprintf("<<"+typ+"/Filter/Adobe.PPKLite/SubFilter/adbe.pkcs7.detached/Name(%s-signer)/Reason(%s-reason)/Location(%s-location)/M(D:20240101000000Z)/Contents<%s>/ByteRange[0 10 20 10]>>", marker, marker, marker, strings.Repeat("00", 32)))
 		fld := d.Add(fmt.Sprintf("<</FT/Sig/T(sig1)/V %s/Type/Annot/Subtype/Widget/Rect[0 0 0 0]/F 132/P %s>>", Ref(sig), pg))
 		d.PatchCatalog(fmt.Sprintf("/AcroForm<</Fields[%s]/SigFlags 3>>", Ref(fld)))
 		for _, nr := range sortedKeys(d.objs) {
@@ -299,7 +303,7 @@ func CryptoDoc(kind, marker string, container string) []byte {
 }
 
 // CryptoKinds lists the location kinds of CryptoDoc.
-var CryptoKinds = []string{"plain", "nested", "annotation", "attachment", "outline", "xmp", "filters", "blockaligned", "sigdict"}
+var CryptoKinds = []string{"plain", "nested", "annotation", "attachment", "outline", "xmp", "filters", "blockaligned", "sigdict", "sigdict-untyped"}
 
 // FormDoc builds small AcroForm documents by hand.
 //   "flat-own-da":      AcroForm without /DA; one top-level text field carrying its own /DA
